@@ -7,7 +7,11 @@ PROP = "C19"
 def plan(ex, tier, first):
     import obl_trace as T
     return [("open.new", [("version / segment-size mismatch => Err before anything is modified; creation saves settings first; "
-                           "stored pre-creation choice is used", T.make_p_settings_gate(ex), "settings_gate", "probe:replay_settings_gate")])]
+                           "stored pre-creation choice is used", T.make_p_settings_gate(ex), "settings_gate", "probe:replay_settings_gate"),
+                          # the gate is only a gate inside the directory lock: settings are read, created and validated by the OWNER -
+                          # an open that loses the lock (or races a first creation) must not have read-then-written them
+                          ("settings are loaded / created only after the directory lock is held (a rejected open modifies nothing)",
+                           T.p_lock_first, "lock_first", "probe:replay_open_exclusive")])]
 
 
 def run(tier, seed, ev):
